@@ -145,6 +145,21 @@ for { }
 `
 }
 
+// twice(fn): a Go callback which invokes fn three times through one Invoker without Acquire / Release
+// (a child VM outside the sync.Pool, kept by the Invoker between the invocations)
+func abortScriptNoPool(childLoops bool) string {
+	body := `sync("c"); return i`
+	if childLoops {
+		body = `sync("c"); if i == 1 { for { } }; return i`
+	}
+	return `global(sync, twice)
+sync("a")
+r := twice(func(i) { ` + body + ` })
+sync("b")
+for { }
+`
+}
+
 // (case id abort09 <scenario> <p1> <occ1> <p2|-> ) -> (outcome <aborted|error|returned|hang|unreached> <ms> (trace...))
 // scenarios: root, child-loop, child-ret, nested-loop, eval-root, eval-child
 func runAbort09(args []*Sexp) *Sexp {
@@ -167,6 +182,10 @@ func runAbort09(args []*Sexp) *Sexp {
 		src = abortScriptChild(false, false)
 	case "nested-loop":
 		src = abortScriptChild(true, true)
+	case "nopool-loop":
+		src = abortScriptNoPool(true)
+	case "nopool-ret":
+		src = abortScriptNoPool(false)
 	default:
 		return L(A("unknown-scenario"))
 	}
@@ -177,7 +196,19 @@ func runAbort09(args []*Sexp) *Sexp {
 		ctl.hook("script."+c.Get(0).String(), c.VM())
 		return ugo.Undefined, nil
 	}}
-	globals := ugo.Map{"sync": syncFn}
+	twice := &ugo.Function{Name: "twice", ValueEx: func(c ugo.Call) (ugo.Object, error) {
+		inv := ugo.NewInvoker(c.VM(), c.Get(0))
+		var last ugo.Object = ugo.Undefined
+		for i := 0; i < 3; i++ {
+			v, err := inv.Invoke(ugo.Int(i))
+			if err != nil {
+				return ugo.Undefined, err
+			}
+			last = v
+		}
+		return last, nil
+	}}
+	globals := ugo.Map{"sync": syncFn, "twice": twice}
 	type result struct {
 		err error
 		pan any
